@@ -177,7 +177,7 @@ let header_str (h : vheader) : string =
     lst_str h.hh_samples]
 let lines_str ls = String.concat "," (List.map hex_of_bytes ls)
 let lines_of s = if s = "~" then [] else List.map bytes_of_hex (split_on ',' s)
-let hres o = match o with None -> "Err" | Some h -> header_str h
+let hres ls = if unmodelled_lines ls then "U" else match read_header ls with None -> "Err" | Some h -> header_str h
 
 let handle kind a =
   try
@@ -242,8 +242,8 @@ let handle kind a =
     | "hw" ->
         (match write_header (header_of a.(0)) with
          | None -> Some "WErr"
-         | Some ls -> Some (lines_str ls ^ "|" ^ hres (read_header ls)))
-    | "hp" -> Some (hres (read_header (lines_of a.(0))))
+         | Some ls -> Some (lines_str ls ^ "|" ^ hres ls))
+    | "hp" -> Some (hres (lines_of a.(0)))
     | _ -> None
   with Unmodelled -> None
 
